@@ -776,6 +776,47 @@ def sym_format(eng, x, spec):
     raise Unsupported(f"format spec {spec!r} on symbolic {type(x).__name__}")
 
 
+def m_decimal(eng, x="0", *a):
+    """decimal.Decimal of repr(int) / repr(float) of symbolic values: only as_tuple() is provided"""
+    import decimal
+    if isinstance(x, LazyStr) and len(x.parts) == 1 and isinstance(x.parts[0], tuple):
+        kind, v = x.parts[0]
+        if kind == "float":
+            neg, digits, e10 = v.dec
+            return SymDecimal(neg, list(digits), e10 - (len(digits) - 1))
+        if kind == "int":
+            neg = eng.truth(eng.cmp("Lt", v, 0))
+            s = eng.int_to_str(eng.neg(v) if neg else v)
+            return SymDecimal(neg, [eng.op("Sub", c, 48) for c in chars(s)], 0)
+    if isinstance(x, (SymInt, SymBV)):
+        return m_decimal(eng, LazyStr([("int", x)]))
+    if deep_sym(x):
+        raise Unsupported("Decimal of symbolic " + type(x).__name__)
+    return decimal.Decimal(x, *a)
+
+
+class SymDecimal:
+    def __init__(self, neg, digits, exponent):
+        self.neg, self.digits, self.exponent = neg, digits, exponent
+
+    def as_tuple(self):
+        sign = self.neg if not isinstance(self.neg, bool) else int(self.neg)
+        return (sign, tuple(self.digits), self.exponent)
+
+
+def m_sigfig_round(eng, x, *a, **kw):
+    """sigfig.round(x, sigfigs=N): identity when x has at most N significant digits (the only case in the stated domain)"""
+    n = kw.get("sigfigs", a[0] if a else None)
+    if isinstance(x, SymFloat) and x.dec is not None and n is not None and "decimals" not in kw and kw.get("type") is None:
+        if len(x.dec[1]) <= n:
+            return x
+        raise Unsupported("sigfig.round of a value with more significant digits than requested")
+    if deep_sym(x):
+        raise Unsupported("sigfig.round on symbolic value")
+    import sigfig
+    return sigfig.round(x, *a, **kw)
+
+
 def m_warn(eng, *a, **k):
     return None
 
@@ -783,7 +824,14 @@ def m_warn(eng, *a, **k):
 def install(eng):
     import builtins
     import warnings
+    import decimal
     eng.models[warnings.warn] = m_warn
+    eng.models[decimal.Decimal] = m_decimal
+    try:
+        import sigfig
+        eng.models[sigfig.round] = m_sigfig_round
+    except ImportError:
+        pass
     M = eng.models
     M.update({
         len: m_len, isinstance: m_isinstance, type: m_type, int: m_int, float: m_float, bool: m_bool, str: m_str,
